@@ -295,6 +295,10 @@ func genC17(verifSeed int64, tier string, idx int) *core.Scenario {
 				if replacing && (k == "Parse" || k == "ParseFile") {
 					op.F = f
 				}
+				// format options for the driver (a map[string]string whose keys come from the driver packages themselves)
+				if k != "Sniff" && k != "SniffFile" && r.Intn(4) == 0 {
+					op.Opts = gen.FormatOptionSpec(r)
+				}
 			}
 			ops = append(ops, op)
 		}
@@ -341,6 +345,7 @@ type c17env struct {
 	initR     map[string]string // initial registries: format -> tag
 	initW     map[string]string
 	disk      *simos.Disk
+	builtinU  map[string]native.Unserializer
 	sharedR   *reader.Reader // objects used by several tasks at once (nil: every call builds its own)
 	sharedW   *writer.Writer
 	sharedS   *formats.Sniffer
@@ -498,6 +503,7 @@ func execC17(sc *core.Scenario) *core.Result {
 		}
 		builtinU[f] = u
 	}
+	env.builtinU = builtinU
 	// The reference results (what each built-in driver returns for each stream, what detection returns)
 	// are computed AFTER the concurrent phase, from the driver objects captured here: computing them
 	// first would warm every lazily filled cache with exactly the inputs of the run, and the
@@ -701,7 +707,7 @@ func (env *c17env) mkOp(rec *opRec) func() string {
 		b := env.streams[op.S]
 		return func() string {
 			r := env.readerFor(op)
-			d, err := r.ParseStreamWithOptions(bytes.NewReader(b), &reader.Options{Format: formats.Format(op.F), UnserializeOptions: &native.UnserializeOptions{}})
+			d, err := r.ParseStreamWithOptions(bytes.NewReader(b), readerOpts(op))
 			return parseOutcome(d, err)
 		}
 	case "SniffFile":
@@ -718,7 +724,7 @@ func (env *c17env) mkOp(rec *opRec) func() string {
 				d, err := r.ParseFile(path)
 				return parseOutcome(d, err)
 			}
-			d, err := r.ParseFileWithOptions(path, &reader.Options{Format: formats.Format(op.F), UnserializeOptions: &native.UnserializeOptions{}})
+			d, err := r.ParseFileWithOptions(path, readerOpts(op))
 			return parseOutcome(d, err)
 		}
 	case "WriteFile":
@@ -730,8 +736,7 @@ func (env *c17env) mkOp(rec *opRec) func() string {
 		}
 		return func() string {
 			w := env.writerFor(op)
-			err := w.WriteFileWithOptions(d, path, &writer.Options{Format: formats.Format(op.F),
-				RenderOptions: &native.RenderOptions{Indent: op.I}, SerializeOptions: &native.SerializeOptions{}})
+			err := w.WriteFileWithOptions(d, path, writerOpts(op))
 			s := &sink{}
 			if data, _, _, ok := env.disk.Lookup(path); ok {
 				s.Write(data)
@@ -743,12 +748,31 @@ func (env *c17env) mkOp(rec *opRec) func() string {
 		return func() string {
 			w := env.writerFor(op)
 			s := &sink{}
-			err := w.WriteStreamWithOptions(d, s, &writer.Options{Format: formats.Format(op.F),
-				RenderOptions: &native.RenderOptions{Indent: op.I}, SerializeOptions: &native.SerializeOptions{}})
+			err := w.WriteStreamWithOptions(d, s, writerOpts(op))
 			return writeOutcome(s, err)
 		}
 	}
 	return func() string { return "unknown-op" }
+}
+
+// per-call options; format options (if the op has any) go to the built-in drivers under the keys the
+// reader and writer look them up by
+func readerOpts(op Op) *reader.Options {
+	o := &reader.Options{Format: formats.Format(op.F), UnserializeOptions: &native.UnserializeOptions{}}
+	if m := gen.FormatOptionMap(op.Opts); m != nil {
+		o.SetFormatOptions("*unserializers.CDX", m)
+		o.SetFormatOptions("*unserializers.SPDX23", m)
+	}
+	return o
+}
+
+func writerOpts(op Op) *writer.Options {
+	o := &writer.Options{Format: formats.Format(op.F), RenderOptions: &native.RenderOptions{Indent: op.I}, SerializeOptions: &native.SerializeOptions{}}
+	if m := gen.FormatOptionMap(op.Opts); m != nil {
+		o.SetFormatOptions("*serializers.CDX", m)
+		o.SetFormatOptions("*serializers.SPDX23", m)
+	}
+	return o
 }
 
 func (env *c17env) readerFor(op Op) *reader.Reader {
@@ -804,20 +828,36 @@ func parseState(k string) regState {
 	return s
 }
 
-func (env *c17env) soloParseOf(tag string, s int) string {
+func (env *c17env) soloParseOf(tag string, s int, opts []string) string {
 	if strings.HasPrefix(tag, "builtin:") {
-		return env.soloParse[strings.TrimPrefix(tag, "builtin:")][s]
+		f := strings.TrimPrefix(tag, "builtin:")
+		if len(opts) == 0 {
+			return env.soloParse[f][s]
+		}
+		// the same driver object, alone, with the same format options
+		key := fmt.Sprintf("P|%s|%d|%v", f, s, opts)
+		if v, ok := soloWriteCache[key]; ok {
+			return v
+		}
+		out := "panic"
+		func() {
+			defer func() { recover() }()
+			d, err := env.builtinU[f].Unserialize(bytes.NewReader(env.streams[s]), &native.UnserializeOptions{}, gen.FormatOptionMap(opts))
+			out = parseOutcome(d, err)
+		}()
+		soloWriteCache[key] = out
+		return out
 	}
 	return fakeParseOutcome(tag, env.streams[s])
 }
 
 var soloWriteCache = map[string]string{}
 
-func (env *c17env) soloWriteOf(tag string, d, indent int) string {
+func (env *c17env) soloWriteOf(tag string, d, indent int, opts []string) string {
 	if !strings.HasPrefix(tag, "builtin:") {
 		return fakeWriteOutcome(tag, env.docs[d], indent)
 	}
-	key := fmt.Sprintf("%s|%d|%d", tag, d, indent)
+	key := fmt.Sprintf("%s|%d|%d|%v", tag, d, indent, opts)
 	if v, ok := soloWriteCache[key]; ok {
 		return v
 	}
@@ -828,7 +868,11 @@ func (env *c17env) soloWriteOf(tag string, d, indent int) string {
 				out = "panic"
 			}
 		}()
-		b, err := renderWith(strings.TrimPrefix(tag, "builtin:"), env.docs[d], indent)
+		var fo interface{}
+		if m := gen.FormatOptionMap(opts); m != nil {
+			fo = m
+		}
+		b, err := gen.RenderWithFO(strings.TrimPrefix(tag, "builtin:"), env.docs[d], indent, fo)
 		s := &sink{}
 		s.Write(b)
 		out = writeOutcome(s, err)
@@ -887,13 +931,13 @@ func (env *c17env) step(st regState, op Op, out string) (bool, regState) {
 		if !ok {
 			return out == "err", st
 		}
-		return out == env.soloParseOf(t, op.S), st
+		return out == env.soloParseOf(t, op.S, op.Opts), st
 	case "Write":
 		t, ok := st.W[op.F]
 		if !ok || op.F == "" {
 			return out == "err", st
 		}
-		return out == env.soloWriteOf(t, op.D, op.I), st
+		return out == env.soloWriteOf(t, op.D, op.I, op.Opts), st
 	}
 	return false, st
 }
